@@ -158,6 +158,7 @@ func c13(r *core.Run) {
 	c13Parse(r)
 	// which changes are sent to the model: the audit uses the same bound, the same way, as the diff that scored them
 	thresholdAgreement(r, "C13.BOUND", "/internal/cli")
+	c13Screened(r)
 }
 
 func c13Whitelist(r *core.Run, v *ssa.Function, W map[string]bool) {
@@ -1326,4 +1327,94 @@ func usesCryptoRand(fn *ssa.Function) bool {
 func isZeroValue(v ssa.Value) bool {
 	c, ok := v.(*ssa.Const)
 	return ok && c.Value == nil
+}
+
+// c13Screened: the injection screen looks at the UNTRUSTED text: the string handed to the sentinel is the payload the
+// prompt builder made from the commit message (the result that went through json.Marshal and the nonce envelope),
+// not the constant system prompt. Screening the wrong result lets every hostile message through to the auditor.
+func c13Screened(r *core.Run) {
+	p := r.P
+	n := 0
+	for _, fn := range p.FuncsIn("internal/llm") {
+		// the builder call: (string, string, error) from a repository function that receives the commit message
+		core.InstrsOf(fn, func(in ssa.Instruction) {
+			c, ok := in.(*ssa.Call)
+			if !ok {
+				return
+			}
+			g := core.StaticCallee(&c.Call)
+			if g == nil || !p.IsProdFunc(g) {
+				return
+			}
+			rt := resultTypes(g)
+			// the sentinel: (bool, string, error)
+			if len(rt) != 3 || rt[0].String() != "bool" || rt[1].String() != "string" || rt[2].String() != "error" {
+				return
+			}
+			// which of its string arguments comes from a (string, string, error) builder, and from which result
+			for _, a := range c.Call.Args {
+				ex, isEx := core.Unwrap(a).(*ssa.Extract)
+				if !isEx {
+					continue
+				}
+				bc, isCall := ex.Tuple.(*ssa.Call)
+				if !isCall {
+					continue
+				}
+				b := core.StaticCallee(&bc.Call)
+				if b == nil || !p.IsProdFunc(b) {
+					continue
+				}
+				brt := resultTypes(b)
+				if len(brt) != 3 || brt[0].String() != "string" || brt[1].String() != "string" {
+					continue
+				}
+				// the payload result: the one built from json.Marshal* output in the builder
+				payloadIdx := -1
+				for _, ret := range core.Returns(b) {
+					for i := 0; i < 2; i++ {
+						seen := map[ssa.Value]bool{}
+						var uses func(v ssa.Value, d int) bool
+						uses = func(v ssa.Value, d int) bool {
+							if v == nil || seen[v] || d > 12 {
+								return false
+							}
+							seen[v] = true
+							if cc, ok := v.(*ssa.Call); ok && strings.HasPrefix(core.CalleeName(&cc.Call), "encoding/json.Marshal") {
+								return true
+							}
+							if cc, ok := v.(*ssa.Call); ok {
+								for _, aa := range cc.Call.Args {
+									if elems, isVar := varargElems(aa); isVar {
+										for _, e := range elems {
+											if uses(core.Unwrap(e), d+1) {
+												return true
+											}
+										}
+									}
+								}
+							}
+							if inn, ok := v.(ssa.Instruction); ok {
+								for _, op := range inn.Operands(nil) {
+									if op != nil && *op != nil && uses(*op, d+1) {
+										return true
+									}
+								}
+							}
+							return false
+						}
+						if i < len(ret.Results) && uses(ret.Results[i], 0) {
+							payloadIdx = i
+						}
+					}
+				}
+				if payloadIdx < 0 {
+					continue
+				}
+				n++
+				r.Check(ex.Index == payloadIdx, "C13.SENT", core.FuncName(fn)+"#screens-the-untrusted-payload", in.Pos(), "the sentinel is handed the payload built from the commit message", fmt.Sprintf("the sentinel is handed result %d of %s, but the untrusted commit message is in result %d: the screen only ever sees the constant system prompt, so a hostile message goes straight to the auditor and its MATCH is reported", ex.Index, core.FuncName(b), payloadIdx))
+			}
+		})
+	}
+	r.Floor("C13.SENT", "sentinel calls fed from the prompt builder", n, 1)
 }
